@@ -4,13 +4,13 @@ package main
 
 import (
 	"fmt"
-	"sort"
 	"go/ast"
 	"go/constant"
 	"go/parser"
 	"go/token"
 	"go/types"
 	"math/big"
+	"sort"
 	"strings"
 
 	"golang.org/x/tools/go/ssa"
@@ -22,23 +22,24 @@ type specVar struct {
 }
 
 type SpecEnv struct {
-	e        *FnExec
-	cur      *State
-	old      *State
-	before   *State
-	prev     *State // state at the start of the current loop iteration (transition clauses)
-	vars     map[string]specVar
-	pkg      *types.Package
-	scopePos token.Pos // when valid: locals of e.fn visible at this position resolve to their cells
-	results  []specVar
-	depth    int
-	clause   *Clause
-	curLoop  *loopInfo
-	cellSt   *State
-	mapViews map[int][2]*Term // rec-spec map parameters: placeholder id -> (domain, values) arrays
+	e          *FnExec
+	cur        *State
+	old        *State
+	before     *State
+	prev       *State // state at the start of the current loop iteration (transition clauses)
+	vars       map[string]specVar
+	pkg        *types.Package
+	scopePos   token.Pos // when valid: locals of e.fn visible at this position resolve to their cells
+	results    []specVar
+	depth      int
+	clause     *Clause
+	curLoop    *loopInfo
+	block      *ssa.BasicBlock // the block of the guarded call (guardcall conditions): _k resolves against it
+	cellSt     *State
+	mapViews   map[int][2]*Term // rec-spec map parameters: placeholder id -> (domain, values) arrays
 	atCallSite bool
 	outer      *State // the current state while inside old()/before(): now(e) escapes back to it
-	pureIdx  int               // which result of a multi-result pure function is meant (-1: single)
+	pureIdx    int    // which result of a multi-result pure function is meant (-1: single)
 }
 
 type specErr struct{ msg string }
@@ -346,6 +347,47 @@ func (env *SpecEnv) ident(name string) (*Term, types.Type) {
 			env.fail("result used but function has no results (or clause is not an ensures)")
 		}
 		return env.results[0].v, env.results[0].t
+	case "_k":
+		// the key of the current iteration of the innermost enclosing range-over-map loop
+		// (available in guardcall conditions; the loop may discard the key with `_`)
+		if env.block != nil && env.e != nil {
+			var best *loopInfo
+			for _, li := range env.e.loops {
+				if li.blocks[env.block] && (best == nil || len(li.blocks) < len(best.blocks)) {
+					best = li
+				}
+			}
+			if best != nil {
+				for _, ins := range best.header.Instrs {
+					nx, ok := ins.(*ssa.Next)
+					if !ok {
+						continue
+					}
+					rng, ok := nx.Iter.(*ssa.Range)
+					if !ok {
+						continue
+					}
+					mt, ok := rng.X.Type().Underlying().(*types.Map)
+					if !ok {
+						continue
+					}
+					// the key as the iteration produced it: result 1 of next()
+					for b := range best.blocks {
+						for _, in2 := range b.Instrs {
+							if ex, ok := in2.(*ssa.Extract); ok && ex.Tuple == ssa.Value(nx) && ex.Index == 1 {
+								if v, ok := env.e.vals[ex]; ok && v.T != nil {
+									return v.T, mt.Key()
+								}
+							}
+						}
+					}
+					if v, ok := env.e.vals[nx]; ok && len(v.Tuple) == 3 && v.Tuple[1].T != nil {
+						return v.Tuple[1].T, mt.Key()
+					}
+				}
+			}
+		}
+		env.fail("_k used outside a range-over-map loop body (guardcall conditions only)")
 	case "_i":
 		// number of completed iterations of the enclosing range-over-slice loop
 		if env.curLoop != nil && env.e != nil {
@@ -712,6 +754,30 @@ func (env *SpecEnv) tr(x *SExpr) (*Term, types.Type) {
 		t := env.resolveType(x.Type)
 		v, vt := env.tr(x.Args[0])
 		return env.convert(v, vt, t), t
+	case "complit":
+		t := env.resolveTypeExpr(x.Args[0])
+		si := structOf(t)
+		if si == nil {
+			env.fail("composite literal of non-struct type %s", x.Args[0])
+		}
+		args := make([]*Term, len(si.fields))
+		for i := range args {
+			args[i] = zeroOf(si.typ.Field(i).Type())
+		}
+		for k, b := range x.Binds {
+			found := false
+			for i := 0; i < si.typ.NumFields(); i++ {
+				if si.typ.Field(i).Name() == b.Name {
+					v, vt := env.tr(x.Args[k+1])
+					args[i] = env.convert(v, vt, si.typ.Field(i).Type())
+					found = true
+				}
+			}
+			if !found {
+				env.fail("type %s has no field %s", x.Args[0], b.Name)
+			}
+		}
+		return si.Mk(args...), t
 	case "call":
 		return env.call(x)
 	}
